@@ -8,6 +8,30 @@ ALL = [f"C{i:02d}" for i in range(1, 21)]
 
 # property -> (technique, level text, level note, design ref)
 CLAIMED = {
+    "C01": (
+        "Hypothesis-generated worlds simulated end-to-end with a shadow resource ledger fed by class-level wrappers on Worker.place_task/remove_task/load_profile/evict_profile",
+        "Every ledger operation on a live worker in thousands of generated runs is replayed on an independent shadow ledger (demand taken from the execution strategy, a batch counted once) and compared with the configured capacity; TASK_PLACEMENT and WORKER_POOL_UTILIZATION rows are cross-checked. Exploration of the run space, not proof.",
+        "Scheduler runtime 0, no preemption; solver-backed policies are bounded by the size-limited Gurobi/CPLEX licences.",
+        "DESIGN.md 3 C01",
+    ),
+    "C02": (
+        "Hypothesis-generated DAG worlds simulated end-to-end; every Task.start judged against the monitor's own release/finish history and the CSV trace",
+        "Validity predicate over every start of every task of every generated run: release first, all (terminal: one) predecessors finished first, at most one start/finish. Exploration.",
+        "Predecessor sets come from the generated spec. Scheduler runtime 0, no preemption.",
+        "DESIGN.md 3 C02",
+    ),
+    "C03": (
+        "Hypothesis-generated worlds with simultaneous events; per-task duration, release of resources, clock monotonicity and justification of every deferral against shadow models",
+        "Every task's finish-start is compared with the runtime of the strategy handed to Worker.place_task (exact, or within the variance window), resources must be released at that instant, handled event times must be non-decreasing, and each TASK_NOT_READY/WORKER_NOT_READY must be justified by the shadow history/ledger. Exploration.",
+        "Tie order among equal-priority events is not asserted. Scheduler runtime 0, no preemption.",
+        "DESIGN.md 3 C03",
+    ),
+    "C05": (
+        "Hypothesis-generated worlds; deterministic livelock detection in the harness (no wall-clock oracle) plus end-state predicates for feasible work under work-conserving policies",
+        "simulate() must return with a SIMULATOR_END no later than the timeout; non-termination is proven from the deterministic loop (repeated zero-length steps or scheduler invocations with no state change), never guessed from time. Feasible work under EDF/FIFO/LSF must be complete and no runnable released task may remain when the run ends early. Exploration; liveness only up to the step budget.",
+        "Runs that hit the 4000-step budget without a proven loop are inconclusive (counted). Scheduler runtime 0.",
+        "DESIGN.md 3 C05",
+    ),
     "C16": (
         "Hypothesis-generated EventTime triples against integer-microsecond arithmetic; generated "
         "EventQueue operation histories against a reference multiset (model-based)",
